@@ -53,6 +53,8 @@ type RResult struct {
 	MaxEmptyPerRead    int
 	Post               []ReadRes // reads after the first EOF
 	PostErrReads       []ReadRes // reads after the first non-EOF error
+	PostErrOut         []byte    // bytes those reads delivered
+	PostErrEOF         bool      // one of them reported a clean end of stream (reading stops there)
 }
 
 func openReader(format string, src io.Reader, rdict int, single bool) (io.Reader, error) {
@@ -180,8 +182,12 @@ func runReader(format string, img []byte, want int, c *RCase, limit int, x *sim.
 	}
 	if res.Final != nil && res.Final != io.EOF && res.Panic == nil {
 		// a caller that keeps reading after an error: still no panic, still bounded
+		var pbuf []byte
 		for _, l := range c.PostErr {
-			p := make([]byte, l)
+			if cap(pbuf) < l {
+				pbuf = make([]byte, l)
+			}
+			p := pbuf[:l]
 			var n int
 			var err error
 			c0, e0 := src.Calls, src.Empty
@@ -204,6 +210,11 @@ func runReader(format string, img []byte, want int, c *RCase, limit int, x *sim.
 				break
 			}
 			res.PostErrReads = append(res.PostErrReads, ReadRes{Len: l, N: n, Err: err})
+			res.PostErrOut = append(res.PostErrOut, p[:n]...)
+			if err == io.EOF {
+				res.PostErrEOF = true
+				break
+			}
 		}
 	}
 	if res.Final == io.EOF {
